@@ -2,35 +2,45 @@ import AiocoapModel.Oscore.Compress
 /-! `_uncompress ∘ _compress` is the identity on everything `protect` sends. -/
 namespace Aiocoap.Oscore.Prot
 
-/-- header maps `protect` can produce: a Partial IV of 1..5 bytes if any, a KID context of at
-most 255 bytes if any -/
+/-- header maps `protect` can produce: a Partial IV of 1..5 bytes in its shortest form if any, a
+KID context of at most 255 bytes if any -/
 def Unprot.sendable (u : Unprot) : Prop :=
-  (∀ p, u.piv = some p → 1 ≤ p.length ∧ p.length ≤ 5) ∧
+  (∀ p, u.piv = some p → 1 ≤ p.length ∧ p.length ≤ 5 ∧ pivMinimal p = true) ∧
   (∀ c, u.kidContext = some c → c.length ≤ 255)
 
 /-- `uncompress` in terms of the decoded flag bits -/
 theorem uncompress_cons (fb : Nat) (tail : Bytes) (n k h g : Nat)
-    (hfb : fb = n + 8 * k + 16 * h + 32 * g)
+    (hfb : fb = n + 8 * k + 16 * h + 32 * g) (hpos : fb ≠ 0)
     (hn : n ≤ 5) (hk : k ≤ 1) (hh : h ≤ 1) (hg : g ≤ 1) :
     uncompress (fb :: tail) =
       if tail.length < n then none else
+      if pivMinimal (tail.take n) = false then none else
       if h = 1 then
         match tail.drop n with
         | [] => none
         | s :: t =>
           if t.length < s then none else
-          some { piv := if n = 0 then none else some (tail.take n), kidContext := some (t.take s),
-                 kid := if k = 1 then some (t.drop s) else none, group := decide (g = 1) }
+          if k = 1 then
+            some { piv := if n = 0 then none else some (tail.take n), kidContext := some (t.take s),
+                   kid := some (t.drop s), group := decide (g = 1) }
+          else if t.length ≠ s then none
+          else some { piv := if n = 0 then none else some (tail.take n),
+                      kidContext := some (t.take s), kid := none, group := decide (g = 1) }
       else
-        some { piv := if n = 0 then none else some (tail.take n), kidContext := none,
-               kid := if k = 1 then some (tail.drop n) else none, group := decide (g = 1) } := by
+        if k = 1 then
+          some { piv := if n = 0 then none else some (tail.take n), kidContext := none,
+                 kid := some (tail.drop n), group := decide (g = 1) }
+        else if (tail.drop n).length ≠ 0 then none
+        else some { piv := if n = 0 then none else some (tail.take n), kidContext := none,
+                    kid := none, group := decide (g = 1) } := by
   have f1 : fb / 64 % 4 = 0 := by omega
   have f2 : fb % 8 = n := by omega
   have f3 : fb / 8 % 2 = k := by omega
   have f4 : fb / 16 % 2 = h := by omega
   have f5 : fb / 32 % 2 = g := by omega
-  simp only [uncompress, f1, f2, f3, f4, f5, ne_eq, not_true_eq_false, if_false]
+  simp only [uncompress, f1, f2, f3, f4, f5, ne_eq, not_true_eq_false, if_false, hpos]
   rw [if_neg (by omega)]
+  simp only [Bool.not_eq_true']
   rfl
 
 theorem uncompress_compress (u : Unprot) (hu : u.sendable) :
@@ -48,47 +58,48 @@ theorem uncompress_compress (u : Unprot) (hu : u.sendable) :
         cases g with
         | false =>
           refine ⟨16 :: (c.length :: c), by simp [compress]; omega, ?_⟩
-          rw [uncompress_cons 16 _ 0 0 1 0 (by omega) (by omega) (by omega) (by omega) (by omega)]
-          simp
+          rw [uncompress_cons 16 _ 0 0 1 0 (by omega) (by omega) (by omega) (by omega) (by omega) (by omega)]
+          simp [pivMinimal]
         | true =>
           refine ⟨48 :: (c.length :: c), by simp [compress]; omega, ?_⟩
-          rw [uncompress_cons 48 _ 0 0 1 1 (by omega) (by omega) (by omega) (by omega) (by omega)]
-          simp
+          rw [uncompress_cons 48 _ 0 0 1 1 (by omega) (by omega) (by omega) (by omega) (by omega) (by omega)]
+          simp [pivMinimal]
       | some k =>
         cases g with
         | false =>
           refine ⟨24 :: (c.length :: c ++ k), by simp [compress]; omega, ?_⟩
-          rw [uncompress_cons 24 _ 0 1 1 0 (by omega) (by omega) (by omega) (by omega) (by omega)]
-          simp
+          rw [uncompress_cons 24 _ 0 1 1 0 (by omega) (by omega) (by omega) (by omega) (by omega) (by omega)]
+          simp [pivMinimal]
         | true =>
           refine ⟨56 :: (c.length :: c ++ k), by simp [compress]; omega, ?_⟩
-          rw [uncompress_cons 56 _ 0 1 1 1 (by omega) (by omega) (by omega) (by omega) (by omega)]
-          simp
+          rw [uncompress_cons 56 _ 0 1 1 1 (by omega) (by omega) (by omega) (by omega) (by omega) (by omega)]
+          simp [pivMinimal]
     | some p =>
       have h1 := (hp p rfl).1
-      have h2 := (hp p rfl).2
+      have h2 := (hp p rfl).2.1
+      have hmin := (hp p rfl).2.2
       have hne : p.length ≠ 0 := by omega
       cases kid with
       | none =>
         cases g with
         | false =>
           refine ⟨(p.length + 16) :: (p ++ (c.length :: c)), by simp [compress]; omega, ?_⟩
-          rw [uncompress_cons _ _ p.length 0 1 0 (by omega) (by omega) (by omega) (by omega) (by omega)]
-          simp [hne]
+          rw [uncompress_cons _ _ p.length 0 1 0 (by omega) (by omega) (by omega) (by omega) (by omega) (by omega)]
+          simp [hne, hmin]
         | true =>
           refine ⟨(p.length + 16 + 32) :: (p ++ (c.length :: c)), by simp [compress]; omega, ?_⟩
-          rw [uncompress_cons _ _ p.length 0 1 1 (by omega) (by omega) (by omega) (by omega) (by omega)]
-          simp [hne]
+          rw [uncompress_cons _ _ p.length 0 1 1 (by omega) (by omega) (by omega) (by omega) (by omega) (by omega)]
+          simp [hne, hmin]
       | some k =>
         cases g with
         | false =>
           refine ⟨(p.length + 8 + 16) :: (p ++ (c.length :: c) ++ k), by simp [compress]; omega, ?_⟩
-          rw [uncompress_cons _ _ p.length 1 1 0 (by omega) (by omega) (by omega) (by omega) (by omega)]
-          simp [hne]
+          rw [uncompress_cons _ _ p.length 1 1 0 (by omega) (by omega) (by omega) (by omega) (by omega) (by omega)]
+          simp [hne, hmin]
         | true =>
           refine ⟨(p.length + 8 + 16 + 32) :: (p ++ (c.length :: c) ++ k), by simp [compress]; omega, ?_⟩
-          rw [uncompress_cons _ _ p.length 1 1 1 (by omega) (by omega) (by omega) (by omega) (by omega)]
-          simp [hne]
+          rw [uncompress_cons _ _ p.length 1 1 1 (by omega) (by omega) (by omega) (by omega) (by omega) (by omega)]
+          simp [hne, hmin]
   | none =>
     cases piv with
     | none =>
@@ -98,21 +109,22 @@ theorem uncompress_compress (u : Unprot) (hu : u.sendable) :
         | false => exact ⟨[], by simp [compress], by simp [uncompress, Unprot.empty]⟩
         | true =>
           refine ⟨[32], by simp [compress], ?_⟩
-          rw [uncompress_cons 32 _ 0 0 0 1 (by omega) (by omega) (by omega) (by omega) (by omega)]
-          simp
+          rw [uncompress_cons 32 _ 0 0 0 1 (by omega) (by omega) (by omega) (by omega) (by omega) (by omega)]
+          simp [pivMinimal]
       | some k =>
         cases g with
         | false =>
           refine ⟨8 :: k, by simp [compress], ?_⟩
-          rw [uncompress_cons 8 _ 0 1 0 0 (by omega) (by omega) (by omega) (by omega) (by omega)]
-          simp
+          rw [uncompress_cons 8 _ 0 1 0 0 (by omega) (by omega) (by omega) (by omega) (by omega) (by omega)]
+          simp [pivMinimal]
         | true =>
           refine ⟨40 :: k, by simp [compress], ?_⟩
-          rw [uncompress_cons 40 _ 0 1 0 1 (by omega) (by omega) (by omega) (by omega) (by omega)]
-          simp
+          rw [uncompress_cons 40 _ 0 1 0 1 (by omega) (by omega) (by omega) (by omega) (by omega) (by omega)]
+          simp [pivMinimal]
     | some p =>
       have h1 := (hp p rfl).1
-      have h2 := (hp p rfl).2
+      have h2 := (hp p rfl).2.1
+      have hmin := (hp p rfl).2.2
       have hne : p.length ≠ 0 := by omega
       cases kid with
       | none =>
@@ -121,21 +133,134 @@ theorem uncompress_compress (u : Unprot) (hu : u.sendable) :
           refine ⟨p.length :: p, ?_, ?_⟩
           · simp [compress]
             exact ⟨by omega, by intro h; subst h; simp at h1⟩
-          · rw [uncompress_cons _ _ p.length 0 0 0 (by omega) (by omega) (by omega) (by omega) (by omega)]
-            simp [hne]
+          · rw [uncompress_cons _ _ p.length 0 0 0 (by omega) (by omega) (by omega) (by omega) (by omega) (by omega)]
+            simp [hne, hmin]
         | true =>
           refine ⟨(p.length + 32) :: p, by simp [compress]; omega, ?_⟩
-          rw [uncompress_cons _ _ p.length 0 0 1 (by omega) (by omega) (by omega) (by omega) (by omega)]
-          simp [hne]
+          rw [uncompress_cons _ _ p.length 0 0 1 (by omega) (by omega) (by omega) (by omega) (by omega) (by omega)]
+          simp [hne, hmin]
       | some k =>
         cases g with
         | false =>
           refine ⟨(p.length + 8) :: (p ++ k), by simp [compress]; omega, ?_⟩
-          rw [uncompress_cons _ _ p.length 1 0 0 (by omega) (by omega) (by omega) (by omega) (by omega)]
-          simp [hne]
+          rw [uncompress_cons _ _ p.length 1 0 0 (by omega) (by omega) (by omega) (by omega) (by omega) (by omega)]
+          simp [hne, hmin]
         | true =>
           refine ⟨(p.length + 8 + 32) :: (p ++ k), by simp [compress]; omega, ?_⟩
-          rw [uncompress_cons _ _ p.length 1 0 1 (by omega) (by omega) (by omega) (by omega) (by omega)]
-          simp [hne]
+          rw [uncompress_cons _ _ p.length 1 0 1 (by omega) (by omega) (by omega) (by omega) (by omega) (by omega)]
+          simp [hne, hmin]
+
+/-- the Partial IV `_uncompress` hands out is in its shortest form, 1..5 bytes long -/
+theorem uncompress_piv_minimal {o : Bytes} {u : Unprot} (h : uncompress o = some u) :
+    ∀ p, u.piv = some p → pivMinimal p = true := by
+  intro p hp
+  unfold uncompress at h
+  split at h
+  · cases h; cases hp
+  · rename_i fb tail
+    simp only at h
+    repeat' split at h
+    all_goals (try (cases h))
+    all_goals (try (cases hp))
+    all_goals simp_all
+
+
+/-- **`_compress` inverts `_uncompress`**: whatever option value `_uncompress` accepts is exactly
+the encoding of the header it returns.  (`o.wf`: the option value consists of bytes.) -/
+theorem compress_uncompress {o : Bytes} {u : Unprot} (hwf : o.wf) (h : uncompress o = some u) :
+    compress u = some o := by
+  cases o with
+  | nil => simp [uncompress] at h; subst h; simp [compress, Unprot.empty]
+  | cons fb tail =>
+    have hfb : fb < 256 := hwf fb (by simp)
+    have h0 : fb ≠ 0 := by
+      intro h0; simp [uncompress, h0] at h
+    have hres : fb / 64 % 4 = 0 := by
+      by_cases hres : fb / 64 % 4 = 0
+      · exact hres
+      · simp [uncompress, h0, hres] at h
+    have hn : fb % 8 ≤ 5 := by
+      by_cases hn : fb % 8 ≤ 5
+      · exact hn
+      · simp [uncompress, h0, hres] at h; omega
+    obtain ⟨n, k, hh, g, hfbeq, hn', hk, hhh, hg⟩ : ∃ n k hh g, fb = n + 8 * k + 16 * hh + 32 * g ∧
+        n ≤ 5 ∧ k ≤ 1 ∧ hh ≤ 1 ∧ g ≤ 1 :=
+      ⟨fb % 8, fb / 8 % 2, fb / 16 % 2, fb / 32 % 2, by omega, hn, by omega, by omega, by omega⟩
+    rw [uncompress_cons fb tail n k hh g hfbeq h0 hn' hk hhh hg] at h
+    subst hfbeq
+    split at h
+    · cases h
+    rename_i hlen
+    split at h
+    · cases h
+    have htl : (tail.take n).length = n := by simp; omega
+    have hk : k = 0 ∨ k = 1 := by omega
+    have hhh : hh = 0 ∨ hh = 1 := by omega
+    have hg : g = 0 ∨ g = 1 := by omega
+    rcases hhh with rfl | rfl
+    · -- no KID context
+      simp only [Nat.zero_ne_one, if_false] at h
+      rcases hk with rfl | rfl
+      · simp only [Nat.zero_ne_one, if_false] at h
+        split at h
+        · cases h
+        rename_i hex
+        have hnil : tail.drop n = [] := List.eq_nil_of_length_eq_zero (by omega)
+        have htail : tail.take n = tail := by
+          have := List.take_append_drop n tail
+          rw [hnil, List.append_nil] at this; exact this
+        cases h
+        have hn0' : n = 0 → tail = [] := by
+          intro hn0; subst hn0; simpa using hnil
+        have hlt : tail.length = n := by rw [← htail]; exact htl
+        rcases hg with rfl | rfl <;> by_cases hn0 : n = 0 <;>
+          simp [compress, hn0, hlt, htail] <;> (try omega)
+        all_goals (first | exact hn0' hn0 | skip)
+        all_goals (
+          have : tail ≠ [] := by intro h; rw [h] at hlt; simp at hlt; omega
+          simp [this]; omega)
+      · simp only [if_true] at h
+        cases h
+        have htd := List.take_append_drop n tail
+        rcases hg with rfl | rfl <;> by_cases hn0 : n = 0 <;>
+          simp [compress, hn0, htl, htd] <;> (try omega)
+    · -- KID context
+      simp only [if_true] at h
+      split at h
+      · cases h
+      rename_i s t hdrop
+      have hs : s < 256 := hwf s (by
+        have : s ∈ tail.drop n := by rw [hdrop]; simp
+        exact List.mem_cons_of_mem _ (List.mem_of_mem_drop this))
+      split at h
+      · cases h
+      rename_i hts
+      have hcl : (t.take s).length = s := by simp; omega
+      have htd : tail.take n ++ s :: t = tail := by
+        rw [← hdrop]; exact List.take_append_drop n tail
+      rcases hk with rfl | rfl
+      · simp only [Nat.zero_ne_one, if_false] at h
+        split at h
+        · cases h
+        rename_i hex
+        have hex : t.length = s := by omega
+        have htake : t.take s = t := by rw [← hex]; exact List.take_length
+        have hdn : t.drop s = [] := by rw [← hex]; exact List.drop_length
+        cases h
+        rcases hg with rfl | rfl <;> by_cases hn0 : n = 0 <;>
+          (try simp [hn0] at htd) <;> simp [compress, hn0, htl, hcl, htd, htake, hex] <;> (try omega)
+      · simp only [if_true] at h
+        cases h
+        rcases hg with rfl | rfl <;> by_cases hn0 : n = 0 <;>
+          (try simp [hn0] at htd) <;> simp [compress, hn0, htl, hcl, htd] <;> (try omega)
+
+/-- **`_uncompress` is injective**: two option values that decode to the same header are the same
+bytes.  Hence every change to the bytes of an OSCORE option either makes it undecodable or
+changes a decoded field (Partial IV, KID, KID context or the group flag). -/
+theorem uncompress_injective {o o' : Bytes} {u : Unprot} (hwf : o.wf) (hwf' : o'.wf)
+    (h : uncompress o = some u) (h' : uncompress o' = some u) : o = o' := by
+  have := compress_uncompress hwf h
+  rw [compress_uncompress hwf' h'] at this
+  exact (Option.some.inj this).symm
 
 end Aiocoap.Oscore.Prot
